@@ -23,12 +23,18 @@ from ..core import Violation
 
 def run_case(tid, case):
     """case = {s, F, mode, xseed, two}: builds the real track (one or two challenges), filters it, allocates the result.
+    L1 is decided per challenge: every challenge is one trace item with its own written schedule.
     Returns the list of trace items (one per challenge)."""
     xr = random.Random(case["xseed"])
     pre_objs = [rs.build_schedule(case["s"], xr)]
+    written = [case["s"]]
     if case.get("two"):
-        pre_objs.append(rs.build_schedule(list(reversed(case["s"])), xr))
-    written = [case["s"]] + ([list(reversed(case["s"]))] if case.get("two") else [])
+        # a second challenge assembled from the same snippets in another order: same-named, equally configured tasks, about half
+        # of them tagged differently / of another operation type (task equality ignores tags, params and the operation's type:
+        # a decision taken for a task must not leak to its namesake in another challenge)
+        w2, o2 = rs.variant_schedule(list(reversed(case["s"])), list(reversed(pre_objs[0])), xr)
+        written.append(w2)
+        pre_objs.append(o2)
     # the recorded input is the WRITTEN schedule (expected results are never computed from attributes of the real objects);
     # only the fingerprint of the further properties is taken from the objects, before the filter runs
     pre = [rs.with_fingerprints(w, o) for w, o in zip(written, pre_objs)]
@@ -82,7 +88,7 @@ def random_cases(seed, n):
             if k < 0.4:
                 filters.append({"k": "name", "v": rnd.choice([t["name"] for t in lv] + ["nothing", "op-bulk", "x"]) if lv else "nothing"})
             elif k < 0.7:
-                filters.append({"k": "type", "v": rnd.choice(rs.TYPES + ["no-such-type", "t1"])})
+                filters.append({"k": "type", "v": rnd.choice(rs.TYPES + ["bulk_with_retry", "my_custom_op", "no-such-type", "t1"])})
             else:
                 filters.append({"k": "tag", "v": rnd.choice(["index", "index", "search"] + rs.TAGS + ["no-such-tag", "bulk", "Index"])})
         uniq = []
@@ -160,7 +166,7 @@ def run(ctx, out):
         "case = (schedule of one challenge: leaf tasks / parallel elements with names, operation types, tags, clients, cap, completed-by; "
         "filter list; include or exclude); distinct by hash; non-trivial = at least one filter and at least one task. "
         "Sources: every input state of TaskFilter.tla (S2C, exhaustive within the bounds; filter order shuffled by seed; every 4th track has a "
-        "second challenge), seeded random larger schedules with up to 4 filters."
+        "second challenge with same-named, equally configured tasks that are tagged / typed differently), seeded random larger schedules with up to 4 filters."
     )
     out.assumptions = [
         "task names are unique within a challenge (the loader rejects duplicates); filter values contain no ':'; only one of --include-tasks / --exclude-tasks is given; an empty list means the option is absent",
